@@ -623,6 +623,36 @@ func runC14(args []string) error {
 		}
 	}
 
+	// ---- (b3) where a table's record lives and what the listing selects: the key createTable uses for a name and
+	// whether GetTables lists the table afterwards, against Proofs/CatalogueKeys.v ----
+	kf := &CasesFile{Requires: []string{"Model.Bytes", "Model.Obs", "Model.MetaKV", "Proofs.CatalogueKeys", "Run.C14Run"}, CaseType: "kcase", Check: "k_check", Show: "k_model"}
+	for _, name := range []string{"a", "alpha", ".", "..", "a.b", "a-archive", "sys", "a/lease", "sys/idseq", "x/y/z", "a/", "*", "ü"} {
+		st := newSchedStore()
+		var first string
+		g := &gate{id: 1, store: st, rec: func(op, key string) {
+			if first == "" {
+				first = key
+			}
+		}}
+		m := table.NewManager(nil, nil, g, table.Config{NodeID: 1, Table: table.TableConfig{BlockCacheSize: 1024, TableCacheSize: 1024}})
+		listed := false
+		if _, err := m.VerifCreateTable(name); err == nil {
+			g.rec = nil
+			if ts, err := m.GetTables(); err == nil {
+				for _, t := range ts {
+					listed = listed || t.Name == name
+				}
+			}
+		}
+		kf.Add(fmt.Sprintf("{| kc_name := %s; kc_impl := %s |}", cBytes([]byte(name)), oL(oB([]byte(first)), oBool(listed))), fmt.Sprintf("table name %q", name))
+		sum.Evaluations++
+	}
+	knames, err := kf.Write(rf.Out, "c14_keys", 50)
+	if err != nil {
+		return err
+	}
+	dnames = append(dnames, knames...)
+
 	// ---- (c) real Manager on a NodeHost ----
 	if err := c14RealManager(sum); err != nil {
 		return err
